@@ -570,6 +570,7 @@ func specC11() *propertySpec {
 		Rules: []ruleSpec{
 			{"C11-R1", "fresh-or-reset: each bracket call site gets a fresh T, or every per-case field (computed from the stores to T fields) is reset before the call", ruleC11R1},
 			{"C11-R2", "attributed-to-own-case: the flag is consulted after cleanup and on the skip path of the same bracket invocation (shared with C02-R2)", ruleC02R2},
+			{"C11-R4", "cleanups-and-context-end-with-their-case: the context is cancelled and every registered cleanup has run when the bracket returns, even if a cleanup panics (shared with C10-R2/R3/R4)", func(r *Run) { ruleC10R2(r); ruleC10R3(r); ruleC10R4(r) }},
 			{"C11-R3", "no-shared-stream-state: a stream shared between test cases is re-seeded per case and does not record; every other T gets its own stream", ruleC11R3},
 		},
 	}
